@@ -585,3 +585,39 @@ def run(ctx, rep):
     run_raw_writers(ctx, rep)
     run_copies(ctx, rep)
     run_table_views(ctx, rep)
+
+
+# ---------------------------------------------------------------------------------------------
+# R10.6b  the table is written entry by entry through `set_raw` (reached from `set`, which merges what must be kept): no other
+#         function of the table module writes to the table stream (a bulk `write_zeros` over a run of entries drops the reserved
+#         nibble of every FAT32 entry in the run)
+
+def run_table_stream_writers(ctx, rep):
+    facts = ctx.facts
+    n = 0
+    WR = ('write_u8', 'write_u16_le', 'write_u32_le', 'write_all', 'write', 'write_zeros')
+    for fn in facts.fns.values():
+        if fn.crate != 'fatfs' or fn.file() != 'src/table.rs':
+            continue
+        base = fn.name.split('::{closure')[0]
+        allowed = base.endswith('::set_raw') or base == 'fatfs::table::format_fat'
+        for b, t in fn.calls():
+            short = (t.get('callee') or '').rsplit('::', 1)[-1]
+            if short not in WR or not ((t.get('callee') or '').startswith(('fatfs::io::', '<T as fatfs::io::', 'fatfs::fs::')) or short == 'write_zeros'):
+                continue
+            n += 1
+            rep.oblige('R10.6b', '%s|bb%d' % (fn.name, b), ok=allowed, nontrivial=True, sample={'fn': fn.name, 'at': fn.loc(t['span'])})
+            if not allowed:
+                rep.violation('R10.6', vkey('R10.6', fn.name, 'stream-writer', short), fn.loc(t['span']),
+                              '%s writes to the table stream directly (`%s`) instead of storing entries through `set`: whatever `set` '
+                              'keeps of the old word (the reserved top nibble of a FAT32 entry, the neighbour nibble of a FAT12 one) is '
+                              'overwritten' % (fn.name, t['span']['snip'][:70]))
+    rep.counts['R10.6b.sites'] = n
+
+
+_run_r10b = run
+
+
+def run(ctx, rep):
+    _run_r10b(ctx, rep)
+    run_table_stream_writers(ctx, rep)
